@@ -33,7 +33,7 @@ def _value_when_debug_zero(test):
 
     import copy
     sub = Sub()
-    e = sub.visit(copy.deepcopy(test))
+    e = sub.visit(ast.parse(ast.unparse(test), mode="eval").body)
     if not sub.ok:
         return None
     if not any(isinstance(n, ast.Constant) for n in ast.walk(e)):
